@@ -113,16 +113,28 @@ def loop(run, p):
     if not whiles:
         raise AnalysisError('Extractor.extract has no sampling loop any more')
     stale = []
-    orig = w.loop
+    # observed where the results are used once the loop is over: a statement after the loop that reads self.results (or hands over
+    # to a method of the extractor that does) reached in the state STALE, and every exit of the function.  (The loop itself may be
+    # left stale when what follows re-extracts first: `if not all_matched: self.results = self.batch_extract()`.)
+    last_loop_line = max(getattr(x, 'lineno', 0) for wl in whiles for x in ast.walk(wl))
+    orig_transfer = w.transfer
 
-    def loop_hook(s, ws):
-        out, b, c = orig(s, ws)
-        for x in out:
-            if x.state == 'STALE' and not x.weak:
-                stale.append((s, x))
-        return out, b, c
-    w.loop = loop_hook
+    def transfer_hook(s, ws):
+        if getattr(s, 'lineno', 0) > last_loop_line and not (isinstance(s, ast.Assign) and isinstance(s.value, ast.Call)
+                                                             and norm(s.value.func) == 'self.batch_extract'):
+            uses = any(isinstance(n, ast.Attribute) and norm(n) == 'self.results' and isinstance(n.ctx, ast.Load) for n in ast.walk(s)) or \
+                any(isinstance(n, ast.Call) and norm(n.func) in ('self.add_warnings', 'self.convert_rex_to_dialect') for n in ast.walk(s))
+            if uses and not isinstance(s, (ast.If, ast.While, ast.For, ast.Try, ast.With)):
+                for x in ws:
+                    if x.state == 'STALE' and not x.weak:
+                        stale.append((s, x))
+        return orig_transfer(s, ws)
+    w.transfer = transfer_hook
     w.run()
+    for kind, node, wl in w.exits:
+        for x in wl:
+            if x.state == 'STALE' and not x.weak and kind in ('return', 'fall'):
+                stale.append((node if hasattr(node, 'lineno') else whiles[0], x))
     fresh_seen = any(isinstance(s, ast.Assign) and norm(s.value.func if isinstance(s.value, ast.Call) else s.value) == 'self.batch_extract'
                      for s in ast.walk(f.node) if isinstance(s, ast.Assign))
     if not fresh_seen:
